@@ -10,10 +10,11 @@ import math
 
 from hypothesis import strategies as st
 
-from vlib.core import Sub, Violation, req, sut
+from vlib.core import fuzz_variant, Sub, Violation, req, sut
 
 PROPERTY = "C14"
-RULE = ("Hypothesis: 1-8 (quick) / 1-12 (thorough) segments on a 10 bp grid near a diagonal (overlaps, containment, "
+RULE = ("pair-grid: every pair of short segments with every overlap on a 1 bp grid (non-trivial = one overlaps the other by "
+        "more than half the shorter); Hypothesis: 1-8 (quick) / 1-12 (thorough) segments on a 10 / 3 / 1 bp grid near a diagonal (overlaps, containment, "
         "off-diagonal shifts, equal keys), 0-2 empty segments, both strands as the pipeline presents them, "
         "sequentialityScore 0/1, multipliers 0.5/1/2; larger sets (<=40) against an independent DP.  "
         "non-trivial = >=3 non-empty segments and the optimum is neither all segments nor a single segment; "
@@ -186,15 +187,20 @@ def seg_set(draw, maxn, big=False):
     segs = []
     span = 400 if not big else 3000
     distinct_keys = set()
+    # coordinate unit: 10 bp grid, or single base pairs on a small span so that odd lengths and overlaps of exactly
+    # half the shorter segment (+-1) are frequent (added after seeded change C14-4 was missed on the 10 bp grid)
+    u = draw(st.sampled_from([10, 10, 1, 1, 3]))
+    if u == 1 and not big:
+        span = draw(st.sampled_from([40, 400]))
     for _ in range(n):
-        rs = 10 * draw(st.integers(0, span))
-        ln = 10 * draw(st.one_of(st.integers(0, 60), st.integers(0, 300)))
-        shift = 10 * draw(st.one_of(st.just(0), st.integers(-15, 15), st.integers(-150, 150)))
-        stretch = 10 * draw(st.one_of(st.just(0), st.integers(-10, 10)))
+        rs = u * draw(st.integers(0, span))
+        ln = u * draw(st.one_of(st.integers(0, 12), st.integers(0, 60), st.integers(0, 300)))
+        shift = u * draw(st.one_of(st.just(0), st.integers(-15, 15), st.integers(-150, 150)))
+        stretch = u * draw(st.one_of(st.just(0), st.integers(-10, 10)))
         qs = max(0, rs + shift)
         qlen = max(0, ln + stretch) if ln > 0 else 0
         if ln > 0 and qlen == 0:
-            qlen = 10
+            qlen = u
         s = {"rs": rs, "re": rs + ln, "qs": qs, "qe": qs + qlen,
              "score": draw(st.one_of(st.integers(1, 400), st.integers(100, 3000), st.sampled_from([1000, 2000, 750])))}
         if big:
@@ -214,12 +220,47 @@ def seg_set(draw, maxn, big=False):
             "mult": draw(st.sampled_from([1, 1, 0.5, 2]))}
 
 
+def pair_grid(maxlen):
+    """every pair of segments on a 1 bp grid: lengths 0..maxlen on each map (0 on both or >0 on both), second segment
+    starting from 2 bp after the first one's end down to its start - 1, independently on the two maps"""
+    def gen(shard, nshards):
+        k = 0
+        lens = [(0, 0)] + [(a, b) for a in range(1, maxlen + 1) for b in range(1, maxlen + 1)]
+        for rev in (False, True):
+            for ss, mult in ((0, 1), (1, 1), (0, 0.5)):
+                for lpr, lpq in lens:
+                    for lcr, lcq in lens:
+                        for dr in range(-2, lpr + 2):
+                            for dq in range(-2, lpq + 2):
+                                k += 1
+                                if k % nshards != shard:
+                                    continue
+                                p = {"rs": 20, "re": 20 + lpr, "qs": 30, "qe": 30 + lpq, "score": 100000}
+                                c = {"rs": p["re"] - dr, "re": p["re"] - dr + lcr, "qs": p["qe"] - dq,
+                                     "qe": p["qe"] - dq + lcq, "score": 100000}
+                                yield {"segments": [p, c], "reverse": rev, "ss": ss, "mult": mult}
+    return gen
+
+
+def check_pair(case):
+    info = check(case)
+    p, c = case["segments"]
+    info["nontrivial"] = half_overlap(p, c) or half_overlap(c, p)
+    info["classes"].append("half-overlap" if info["nontrivial"] else "admissible")
+    return info
+
+
 def subchecks(tier):
     q = tier == "quick"
-    return [
+    subs = [
+        Sub("pair-grid", "enum", check_pair, enumerate=pair_grid(5 if q else 7), exhaustive=True,
+            describe=f"every pair of segments with lengths <= {5 if q else 7} bp and every overlap on a 1 bp grid, through chain()"),
         Sub("brute-force", "hyp", check, strategy=lambda: seg_set(8 if q else 12), examples=40000 if q else 400000,
             describe="every admissible sequence enumerated", shrink_budget=600,
             required_classes=("tied-keys", "reverse", "ss=1")),
         Sub("large-dp", "hyp", lambda c: check(c, brute=False), strategy=lambda: seg_set(40, big=True),
             examples=4000 if q else 60000, describe="<=40 segments, distinct keys, independent DP", shrink_budget=400),
     ]
+    if not q:
+        subs.append(fuzz_variant(next(s for s in subs if s.name == "brute-force"), 40000))
+    return subs
